@@ -985,6 +985,8 @@ class XandikosBackend(webdav.Backend):
         self.index_threshold = index_threshold
 
     def _map_to_file_path(self, relpath):
+        # Normalise, so that '..' segments can never lead out of self.path.
+        relpath = posixpath.normpath("/" + relpath)
         return os.path.join(self.path, relpath.lstrip("/"))
 
     def _mark_as_principal(self, path):
